@@ -15,6 +15,8 @@ def enrich(mm, rng):
     kind, plain class attributes"""
     mm.classes = [(cid, (cid >= 2 and rng.random() < .4), supers) for (cid, _a, supers) in mm.classes]
     mm.dflt, mm.explicit, mm.methods, mm.consts = {}, {}, {}, {}
+    # plain Python mix-ins among the bases of a static class (before or after the metamodel classes): not supertypes
+    mm.mixins = {cid: rng.choice(['before', 'after', 'between']) for (cid, _a, supers) in mm.classes if supers and rng.random() < .35}
     for f in mm.feats:
         if not f.ref and not f.many and rng.random() < .5:
             mm.dflt[f.fid] = {'EInt': rng.choice([0, 7, -1]), 'EString': rng.choice(['', 'dflt']), 'EBoolean': rng.choice([True, False])}[f.typ[1]]
